@@ -33,7 +33,7 @@ from elementpath.datatypes import AbstractBinary, AbstractDateTime, AnyAtomicTyp
     Language, NumericProxy, Timezone, UntypedAtomic
 from elementpath.namespaces import XML_BASE, XPATH_FUNCTIONS_NAMESPACE
 from elementpath.helpers import collapse_white_spaces, is_xml_codepoint, \
-    escape_json_string, unescape_json_string, not_equal
+    escape_json_string, unescape_json_string
 from elementpath.sequences import xlist
 from elementpath.etree import etree_iter_strings, is_etree_element
 from elementpath.collations import CollationManager
@@ -123,22 +123,7 @@ def evaluate__map_contains(self: XPathFunction, context: ta.ContextType = None) 
 
     map_ = self.get_argument(context, required=True, cls=XPathMap)
     key = self.get_argument(context, index=1, required=True, cls=AnyAtomicType)
-    if isinstance(key, float) and math.isnan(key):
-        return any(isinstance(k, float) and math.isnan(k) for k in map_.keys(context))
-
-    for k in map_.keys(context):
-        try:
-            if k == key:
-                if isinstance(key, str) or isinstance(k, str):
-                    return True
-                elif isinstance(key, UntypedAtomic) ^ isinstance(k, UntypedAtomic):
-                    return False
-                else:
-                    return True
-        except TypeError:
-            continue
-    else:
-        return False
+    return any(same_key(k, key) for k in map_.keys(context))
 
 
 @method(function('get', prefix='map', nargs=2,
@@ -167,7 +152,7 @@ def evaluate__map_put(self: XPathFunction, context: ta.ContextType = None) -> XP
     if value is None:
         value = []
 
-    items = {k: v for k, v in map_.items(context) if not_equal(k, key)}
+    items = {k: v for k, v in map_.items(context) if not same_key(k, key)}
     items[key] = value
     return XPathMap(self.parser, items=items)
 
@@ -184,10 +169,10 @@ def evaluate__map_remove(self: XPathFunction, context: ta.ContextType = None) ->
         return map_
     elif isinstance(keys, list):
         items = (
-            (k, v) for k, v in map_.items(context) if all(not_equal(k, x) for x in keys)
+            (k, v) for k, v in map_.items(context) if not any(same_key(k, x) for x in keys)
         )
     else:
-        items = ((k, v) for k, v in map_.items(context) if not_equal(k, keys))
+        items = ((k, v) for k, v in map_.items(context) if not same_key(k, keys))
 
     return XPathMap(self.parser, items=items)
 
